@@ -487,9 +487,10 @@ func propC17Registry(col *evid.Collector, maxSteps int) func(rt *rapid.T) {
 			}
 			var err error
 			var pan any
+			reservedLife := rapid.IntRange(0, 2).Draw(rt, "reservedLife") // (drawn outside the recover below: rapid steers with panics)
 			func() {
 				defer func() { pan = recover() }()
-				switch rapid.IntRange(0, 2).Draw(rt, "reservedLife") {
+				switch reservedLife {
 				case 0:
 					err = coll.AddSingleton(ctor, opts...)
 				case 1:
